@@ -1,5 +1,5 @@
 /* C19 - contracts on the coroutine storage policies (src/cocls/coro_storage.h, alloca_storage.h, with_allocator.h).
- * Type aliases (RS, MT, PA, SS, RB, VECC, PES, PESR, EXTRA, FNB) and function aliases are generated per unit (units.py).
+ * Type aliases (RS, MT, PA, SS, RB, VECC, PES, PESR, PESM, XS, EXTRA, FNB) and function aliases are generated per unit (units.py).
  * Field names (_ptr, _capacity, _busy, _state, _alloc_size, _alloc_ptr, _buff, inventory, _factory, _p) are the real member names.
  *
  * Vocabulary of the postconditions (taken from the property statement):
@@ -234,7 +234,10 @@ __CPROVER_ensures(MT_EXTRA_POST)
  * with __CPROVER_pointer_equals (which assigns in a requires).  A ghost pointer that is merely *assumed equal* (gh_me == *(ptr+sz))
  * does not enter symex' value sets: a dereference through it reads an unrelated object and the contract silently talks about
  * something else.  Naming the owner as *(MT**)(ptr+sz) everywhere is correct too, but costs minutes (symbolic-offset reads). */
+#ifndef C19_GH_ME
+#define C19_GH_ME 1
 MT *gh_me;
+#endif
 #ifdef C19_TM      /* thread-modular reading: the frame in the own block carries BLOCK; releasing is the one atomic step */
 #define MTD_EXTRA_PRE (__CPROVER_pointer_equals(gh_mt, gh_me) && gh_tok_block <= 1 && (gh_own ==> (gh_tok_block == 1 && MT_BUSY(gh_me) == 1)))
 #define MTD_EXTRA_ASSIGNS , TM_LOG
@@ -353,7 +356,7 @@ __CPROVER_ensures(cv_exc_pending == 0 && HEAP_UNCHANGED)
  * Construction / destruction of the extra object are observed through the hooks of the driver's Extra (c19_extra_ctor/_dtor).
  * In the contract units the factory call (cocls::function<Extra()>::operator()) is an assumed-contract boundary: "constructs one
  * Extra in the place it is given"; the lemma unit pes_pair runs the real function<> machinery instead. */
-#if defined(CV_HAS_pes_alloc) || defined(CV_HAS_pesr_alloc)   /* abstract callee (names_opt): if alloc stops calling the factory the stub is simply unused and EXTRA_MADE_AT fails */
+#if defined(CV_HAS_pes_alloc) || defined(CV_HAS_pesr_alloc) || defined(CV_HAS_pesm_alloc) || defined(CV_HAS_xs_alloc)   /* abstract callee (names_opt): if alloc stops calling the factory the stub is simply unused and EXTRA_MADE_AT fails */
 unsigned gh_fac_calls; FNB *gh_fac_this; cv_i64 gh_fac_v;
 #define FAC_LOG gh_fac_calls, gh_fac_this
 void factory_call(EXTRA *ret, FNB *f) {            /* assumed contract on the factory: makes exactly one Extra(gh_fac_v) in *ret */
@@ -406,6 +409,109 @@ __CPROVER_ensures(cv_exc_pending == 0 && HEAP_UNCHANGED && __CPROVER_rw_ok(ptr, 
 __CPROVER_ensures(gh_x_dtor == __CPROVER_old(gh_x_dtor) + 1 && gh_x_dtor_at == ptr + sz && gh_x_ctor == __CPROVER_old(gh_x_ctor))
 ;
 #endif
+
+/* ---- promise_extra_storage<T, Alloc> against an ABSTRACT inner policy (units *_alloc_hs / *_dealloc_hs): the SIZE HAND-SHAKE.
+ * From the property: the frame's memory comes from the inner policy and goes back to it - "released exactly once", "exclusively its
+ * own", "no further heap memory after warm-up" are clauses of the inner policy, and every inner policy decides what to do with a
+ * returned block from bookkeeping it keeps AT ptr+size (owner pointer, marker byte).  They carry over to the combined policy only
+ * if the inner policy gets back EXACTLY the block it handed out, with EXACTLY the size that was requested from it for that block
+ * (= frame size + size of the extra object), after the extra object has been destroyed exactly once.  The contracts below say
+ * that about alloc and dealloc for ANY inner policy: Alloc::alloc / Alloc::dealloc are abstract callees that record (count,
+ * object, arguments, number of destructions seen so far); what they do with the block is the subject of the inner policy's units.
+ * One generic contract (aliases xs_alloc / xs_dealloc, type XS) serves all instances (Alloc = default / reusable / mtsafe). */
+#ifdef C19_INNER_ABSTRACT
+unsigned gh_in_alloc_calls, gh_in_dealloc_calls, gh_in_dtor_seen; void *gh_in_this; cv_i64 gh_in_alloc_sz, gh_in_dealloc_sz; cv_i8 *gh_in_ret, *gh_in_dealloc_ptr;
+#define IN_LOG gh_in_alloc_calls, gh_in_dealloc_calls, gh_in_dtor_seen, gh_in_this, gh_in_alloc_sz, gh_in_dealloc_sz, gh_in_ret, gh_in_dealloc_ptr
+#ifdef CV_HAS_inner_alloc           /* Alloc::alloc(n): some block of exactly n bytes (not counted as heap traffic of promise_extra_storage) */
+#ifdef C19_INNER_THIS
+cv_i8 *inner_alloc(C19_INNER_THIS *st, cv_i64 n) { gh_in_this = st;
+#else                               /* default_storage::alloc is static */
+cv_i8 *inner_alloc(cv_i64 n) { gh_in_this = 0;
+#endif
+  gh_in_alloc_calls++; gh_in_alloc_sz = n; __CPROVER_assume(n < SZMAX + 64); gh_in_ret = malloc(n); __CPROVER_assume(gh_in_ret != 0) /* allocation failure assumed away, as in lib/model_heap_log.c */; return gh_in_ret; }
+#endif
+#ifdef CV_HAS_inner_dealloc         /* Alloc::dealloc(p, n): records what comes back and when; the block's fate is the inner policy's business */
+void inner_dealloc(cv_i8 *p, cv_i64 n) {
+  __CPROVER_assert(__CPROVER_rw_ok(p, n), "inner policy gets back a block that is (still) valid for the size it is told");
+  gh_in_dealloc_calls++; gh_in_dealloc_ptr = p; gh_in_dealloc_sz = n; gh_in_dtor_seen = gh_x_dtor; }
+#endif
+#ifdef C19_INNER_THIS
+#define IN_ON_BASE(this_) (gh_in_this == (void *)(this_))     /* Alloc is the base sub-object (offset 0) of this storage */
+#else
+#define IN_ON_BASE(this_) 1
+#endif
+#ifdef CV_HAS_xs_alloc
+cv_i8 *xs_alloc(XS *this_, cv_i64 sz)
+__CPROVER_requires(PRE0 && SZ_OK(sz) && __CPROVER_is_fresh(this_, sizeof(*this_)))
+__CPROVER_assigns(this_->inventory, X_LOG, FAC_LOG, IN_LOG)
+__CPROVER_ensures(cv_exc_pending == 0 && HEAP_UNCHANGED)                                                       /* every byte comes from the inner policy */
+__CPROVER_ensures(gh_in_alloc_calls == __CPROVER_old(gh_in_alloc_calls) + 1 && gh_in_dealloc_calls == __CPROVER_old(gh_in_dealloc_calls) && IN_ON_BASE(this_))   /* exactly one request to the inner policy of THIS storage, nothing handed back */
+__CPROVER_ensures(gh_in_alloc_sz == sz + sizeof(EXTRA))                                                        /* hand-shake, part 1: the inner policy is asked for frame size + size of the extra object */
+__CPROVER_ensures(__CPROVER_return_value != 0 && __CPROVER_return_value == gh_in_ret)                           /* the frame starts exactly where the inner policy's block starts */
+__CPROVER_ensures(__CPROVER_rw_ok(__CPROVER_return_value, sz + sizeof(EXTRA)))                                 /* frame + extra object fit */
+__CPROVER_ensures(EXTRA_MADE_AT(__CPROVER_return_value, sz, this_))
+;
+#endif
+#ifdef CV_HAS_xs_dealloc
+void xs_dealloc(cv_i8 *ptr, cv_i64 sz)
+__CPROVER_requires(PRE0 && SZ_OK(sz) && __CPROVER_is_fresh(ptr, sz + sizeof(EXTRA)))                           /* the block alloc(sz) got from the inner policy for sz + sizeof(T) */
+__CPROVER_assigns(X_LOG, IN_LOG)
+__CPROVER_ensures(cv_exc_pending == 0 && HEAP_UNCHANGED)
+__CPROVER_ensures(gh_x_dtor == __CPROVER_old(gh_x_dtor) + 1 && gh_x_dtor_at == ptr + sz && gh_x_ctor == __CPROVER_old(gh_x_ctor))   /* extra object destroyed exactly once (while valid: hook assertion) */
+__CPROVER_ensures(gh_in_dealloc_calls == __CPROVER_old(gh_in_dealloc_calls) + 1 && gh_in_alloc_calls == __CPROVER_old(gh_in_alloc_calls))   /* the block goes back to the inner policy exactly once */
+__CPROVER_ensures(gh_in_dealloc_ptr == ptr)                                                                    /* EXACTLY the block the inner policy handed out */
+__CPROVER_ensures(gh_in_dealloc_sz == sz + sizeof(EXTRA))                                                      /* hand-shake, part 2: with EXACTLY the size that was requested from it (frame size + size of the extra object) - its trailer sits at ptr + that size */
+__CPROVER_ensures(gh_in_dtor_seen == __CPROVER_old(gh_x_dtor) + 1)                                             /* ... and only after the extra object is gone */
+;
+#endif
+#endif /* C19_INNER_ABSTRACT */
+
+/* ---- composed: promise_extra_storage<Extra, reusable_storage_mtsafe>, REAL bodies of both layers.  The thread-safe storage keeps the
+ * owner pointer behind what IT was asked for, i.e. behind frame AND extra object (offset PM_OFF(sz)); the clauses are those of
+ * mt_alloc / mt_dealloc for the size sz + sizeof(T), plus the life of the extra object. */
+#define PM_OFF(sz) ((sz) + sizeof(EXTRA))
+#define PM_MT(t)   ((MT *)(t))
+#ifdef CV_HAS_pesm_alloc
+cv_i8 *pesm_alloc(PESM *this_, cv_i64 sz)
+__CPROVER_requires(PRE0 && SZ_OK(sz) && __CPROVER_is_fresh(this_, sizeof(*this_)) && RS_WF_FRESH(MT_RS(this_)) && MT_BUSY(PM_MT(this_)) <= 1)
+__CPROVER_assigns(this_->inventory, MT_RS(this_)->_ptr, MT_RS(this_)->_capacity, MT_BUSY(PM_MT(this_)), CV_HEAPLOG, X_LOG, FAC_LOG)
+__CPROVER_assigns(MT_RS(this_)->_ptr != 0: __CPROVER_object_whole(MT_RS(this_)->_ptr))
+__CPROVER_frees(MT_RS(this_)->_ptr)
+__CPROVER_ensures(cv_exc_pending == 0)
+__CPROVER_ensures(__CPROVER_return_value != 0 && __CPROVER_rw_ok(__CPROVER_return_value, PM_OFF(sz) + MT_TRAILER))       /* frame + extra object + owner trailer fit */
+__CPROVER_ensures(MT_OWNER(__CPROVER_return_value, PM_OFF(sz)) == (__CPROVER_old(MT_BUSY(PM_MT(this_))) == 0 ? PM_MT(this_) : (MT *)0))   /* the block says where it belongs, BEHIND the extra object */
+__CPROVER_ensures(MT_BUSY(PM_MT(this_)) == 1)
+__CPROVER_ensures(__CPROVER_old(MT_BUSY(PM_MT(this_))) == 0 ==> (__CPROVER_return_value == MT_RS(this_)->_ptr &&         /* flag free: own block, grown if needed, no heap traffic when it fits (warm-up) */
+                   RS_ALLOC_POST(MT_RS(this_), PM_OFF(sz) + MT_TRAILER, __CPROVER_old(MT_RS(this_)->_ptr), __CPROVER_old(MT_RS(this_)->_capacity))))
+__CPROVER_ensures(__CPROVER_old(MT_BUSY(PM_MT(this_))) != 0 ==> (FRESH_BLOCK(__CPROVER_return_value, PM_OFF(sz) + MT_TRAILER) && NO_DEL &&   /* flag taken: fresh heap block, own block untouched */
+                   __CPROVER_return_value != MT_RS(this_)->_ptr && MT_RS(this_)->_ptr == __CPROVER_old(MT_RS(this_)->_ptr) && MT_RS(this_)->_capacity == __CPROVER_old(MT_RS(this_)->_capacity)))
+__CPROVER_ensures(RS_WF_POST(MT_RS(this_)))
+__CPROVER_ensures(EXTRA_MADE_AT(__CPROVER_return_value, sz, this_))
+;
+#endif
+#ifdef CV_HAS_pesm_dealloc
+#ifndef C19_GH_ME
+#define C19_GH_ME 1
+MT *gh_me;                   /* the owning storage (see the NOTE at mt_dealloc on why it is allocated through this ghost) */
+#endif
+void pesm_dealloc(cv_i8 *ptr, cv_i64 sz)
+__CPROVER_requires(PRE0 && SZ_OK(sz))
+__CPROVER_requires(gh_n >= PM_OFF(sz) + MT_TRAILER && gh_n < SZMAX + 64 && __CPROVER_is_fresh(ptr, gh_n))                /* the block alloc(sz) returned; the extra object at ptr+sz has ANY content */
+__CPROVER_requires(__CPROVER_is_fresh(gh_me, sizeof(MT)))                                                                /* its owner is still alive (documented) */
+__CPROVER_requires(gh_own <= 1 && (gh_own ==> __CPROVER_pointer_equals(MT_OWNER(ptr, PM_OFF(sz)), gh_me)) && (!gh_own ==> MT_OWNER(ptr, PM_OFF(sz)) == (MT *)0))   /* trailer as alloc left it: behind frame + extra object */
+__CPROVER_requires(MT_BUSY(gh_me) <= 1)
+__CPROVER_requires((gh_own == 1) == (MT_RS(gh_me)->_ptr == ptr))
+__CPROVER_requires(gh_own ? MT_RS(gh_me)->_capacity == gh_n : gh_n == PM_OFF(sz) + MT_TRAILER)
+__CPROVER_assigns(MT_BUSY(gh_me), CV_HEAPLOG, X_LOG)
+__CPROVER_frees(ptr)
+__CPROVER_ensures(cv_exc_pending == 0 && NO_NEW)
+__CPROVER_ensures(gh_x_dtor == __CPROVER_old(gh_x_dtor) + 1 && gh_x_dtor_at == ptr + sz && gh_x_ctor == __CPROVER_old(gh_x_ctor))   /* extra object destroyed exactly once (while valid: hook assertion) */
+__CPROVER_ensures(gh_own ==> (NO_DEL && MT_BUSY(gh_me) == 0 && __CPROVER_rw_ok(ptr, gh_n)))                              /* own block: NOT released (the storage still owns it), busy flag cleared */
+__CPROVER_ensures(!gh_own ==> (FREED_ONCE(ptr) && MT_BUSY(gh_me) == __CPROVER_old(MT_BUSY(gh_me))))                      /* heap fallback: released exactly once, flag of the own block's frame untouched */
+__CPROVER_ensures(MT_RS(gh_me)->_ptr == __CPROVER_old(MT_RS(gh_me)->_ptr) && MT_RS(gh_me)->_capacity == __CPROVER_old(MT_RS(gh_me)->_capacity))
+;
+#endif
+
 #ifdef CV_HAS_pes_arrow
 EXTRA *pes_arrow(PES *this_)
 __CPROVER_requires(PRE0 && __CPROVER_is_fresh(this_, sizeof(*this_)))
